@@ -68,6 +68,8 @@ def owners(clause):
         return ["C07"]
     if a == "row":
         return ["C08"]
+    if a == "frontier":
+        return ["C18"]
     if a in ("exc", "err_expected"):
         return ["C05"]
     return ["C05"]
@@ -79,6 +81,8 @@ def clause_id(clause):
         return b.replace("_", ".", 1)
     if a == "edge":
         return f"C06.legal_edge"
+    if a == "frontier":
+        return b.replace("_", ".", 1)
     return f"{a}.{b}" if b != "" else str(a)
 
 
@@ -129,7 +133,7 @@ def crash_key(world, tr):
     kind = sc.get("kind", world.get("sched", {}).get("kind"))
     if end.get("hang"):
         zero_rt = any(s["rt"] == 0 for p in world["profiles"] for s in p["strats"])
-        what = "zero_length_steps" if "zero-length" in end["hang"] else ("too_many_actions" if "loop actions" in end["hang"] else "wall_clock")
+        what = "zero_length_steps" if "zero-length" in end["hang"] else ("too_many_actions" if "loop actions" in end["hang"] else "cpu_time")
         return f"hang:{what}:zero_runtime_strategy={zero_rt}"
     msg = end.get("exc") or ""
     m = re.sub(r"[0-9a-f]{8}-[0-9a-f-]{27}", "<id>", msg)
